@@ -845,6 +845,48 @@ def emit_rust(t, outdir):
     return write_if_changed(os.path.join(outdir, 'si_gen.rs'), '\n'.join(lines) + '\n')
 
 
+BODY_FILES = ['system.rs', 'quantity.rs', 'si/thermodynamic_temperature.rs', 'si/temperature_interval.rs',
+              'si/mod.rs', 'si/angle.rs', 'si/ratio.rs', 'si/time.rs', 'lib.rs', 'unit.rs']
+
+
+def site_bodies(repo):
+    """every `fn` body of the macro files, as `BExpr` (see bodies.py); [(key, nparams, lean)] and the name table"""
+    import bodies
+    try:
+        out, names, raw = bodies.collect(lambda rel: read(repo, 'src/' + rel, 'bodies.' + rel), BODY_FILES)
+    except SiteError:
+        raise
+    except Exception as ex:     # noqa: a lexer/parser failure is a broken translator, not a crash
+        raise SiteError('bodies', '%s: %s' % (type(ex).__name__, ex))
+    if not out:
+        raise SiteError('bodies', 'no function bodies found')
+    return out, names, raw
+
+
+def emit_bodies(out, names, outdir):
+    lines = ['import Uom.Model.Body', '/-! GENERATED by translate/translate.py (site `bodies`) — do not edit -/',
+             'namespace Uom.Gen.Body', 'open Uom.Body', '']
+    for key, nparams, lean in out:
+        lines.append('def %s : FnDef := ⟨%d, %s⟩' % (key, nparams, lean))
+    lines.append('')
+    lines.append('/-! uninterpreted names: `code ↦ text` -/')
+    used = {}
+    for text, code in names.codes.items():
+        kind, _, rest = text.partition(' ')
+        if kind not in ('fn', 'method', 'field'):
+            continue
+        rest = rest.replace('?', 'try').replace('!', 'not')
+        base = {'fn': 'f_', 'method': 'm_', 'field': 'fld_'}[kind] + (re.sub(r'[^A-Za-z0-9]+', '_', rest).strip('_') or 'x')
+        if base in used:
+            base += '_%d' % code
+        used[base] = code
+        lines.append('/-- `%s` -/' % text.replace('-/', '- /'))
+        lines.append('def %s : Nat := %d' % (base, code))
+    lines.append('')
+    lines.append('end Uom.Gen.Body')
+    return write_if_changed(os.path.join(outdir, 'Bodies.lean'), '\n'.join(lines) + '\n')
+
+
 def main():
     verif = os.path.dirname(os.path.dirname(os.path.abspath(__file__)))
     repo = os.environ.get('UOM_REPO', '/repo')
@@ -877,6 +919,14 @@ def main():
         print('translator-broken:%s %s' % (ex.site, ex.msg))
         return 3
     changed += emit_user(t, usr, os.path.join(verif, 'lean', 'Uom', 'Gen'))
+    try:
+        bout, bnames, braw = site_bodies(repo)
+    except SiteError as ex:
+        print('translator-broken:%s %s' % (ex.site, ex.msg))
+        return 3
+    changed += emit_bodies(bout, bnames, os.path.join(verif, 'lean', 'Uom', 'Gen'))
+    write_if_changed(os.path.join(verif, 'build', 'bodies.json'), json.dumps(braw, ensure_ascii=False, indent=0))
+    t['bodies'] = len(bout)
     t['usr'] = dict(quantities=len(usr['quantities']), units=sum(len(q['units']) for q in usr['quantities']), added=len(usr['added']))
     changed += write_if_changed(os.path.join(verif, 'build', 'table.json'), json.dumps(t, ensure_ascii=False, indent=0))
     changed += emit_lean(t, os.path.join(verif, 'lean', 'Uom', 'Gen'))
